@@ -113,6 +113,13 @@ ARCH = [
     {"kind": "table", "page": {"nrow": 8}, "sections": [{"df": _g([_HEADING] * 5 + ["@G0:v1"] * 5), "body": {"page_by": ["@N0"]}, "headers": [{"text": ["@H0.0", "@H0.1"]}]}]},
     {"kind": "table", "page": {"nrow": 8, "col_width": 3.0}, "sections": [{"df": _g([_HEADING] * 5 + ["@G0:v2"] * 5), "body": {"page_by": ["@N0"]},
                                                                          "headers": [{"text": ["@H0.0", "@H0.1"]}]}]},
+    # 28: ONE RTFBody object (complete col_rel_width, so the constructor keeps it) used for all three sections of a multi-section
+    #     document with title, footnote and source: first / last section must be told by position, not by object
+    {"kind": "multi", "header_layout": "nested", "share_body": True,
+     "sections": [{"df": _t(2, 2, "a"), "body": {"col_rel_width": [1, 2]}, "headers": "default"},
+                  {"df": _t(2, 3, "b"), "body": {"col_rel_width": [1, 2]}, "headers": "default"},
+                  {"df": _t(2, 2, "c"), "body": {"col_rel_width": [1, 2]}, "headers": "default"}],
+     "title": {"text": ["@T0"]}, "footnote": {"text": ["@F0"]}, "source": {"text": ["@S0"]}},
 ]
 _PNG2 = (b"\x89PNG\r\n\x1a\n" + (13).to_bytes(4, "big") + b"IHDR" + (12).to_bytes(4, "big") + (5).to_bytes(4, "big")
          + b"\x08\x02\x00\x00\x00" + bytes(8) + b"SECOND VERSION OF THE PLOT").hex()
@@ -281,7 +288,8 @@ def verify(res, lv, got, flags):
     tag = f"{arch_kind}" + ("+shared:" + ",".join(lv.shared) if lv.shared else "")
     if got[0] == "exc":
         flags.add("failed_encode")
-    base = baseline(lv.rec)
+    # "equal-valued, unshared": the fresh interpreter builds one body object per section
+    base = baseline({k: v for k, v in lv.rec.items() if k != "share_body"})
     if "spawn_error" in base or "build_exc" in base:
         res.harness_error = f"baseline failed: {base}"
         return
